@@ -46,12 +46,14 @@ func (s *Session) ExecQuery(q string) error {
 		fmt.Printf("created database %s\n\r", stmt.Name)
 		return nil
 	case sql.UseStatement:
-		var err error
-		s.CurDB = stmt.DBName
-		s.RelationService, err = storage.OpenRelation(stmt.DBName, true)
+		// only switch once the database has been opened: a USE that fails
+		// leaves the session on the database it was on
+		rs, err := storage.OpenRelation(stmt.DBName, true)
 		if err != nil {
 			return err
 		}
+		s.CurDB = stmt.DBName
+		s.RelationService = rs
 		fmt.Printf("selected database %s\n\r", stmt.DBName)
 		return nil
 	case sql.ShowDatabase:
